@@ -14,8 +14,9 @@ package agreement
 // phase until every honest node has committed round `target` = the first round no honest ledger holds at the synchrony
 // point, or the step budget is exhausted.  Synchronous schedulers (re-broadcasts are delivered again, see forgetDelivered):
 //
-//	ls   lock-step: every fresh message is delivered (random order) before any timer fires; when nothing is deliverable the step
-//	     timer of a node that is furthest behind in (round, period, step) fires.  No fast-recovery timeouts.
+//	ls   lock-step: every fresh message is delivered (random order) before any timer fires; when nothing is deliverable the node
+//	     that is furthest behind in (round, period, period-relative expiry of its next timer) fires that timer — the step timer,
+//	     or the fast-recovery timer once the step deadline lies beyond it (see pickLaggard).
 //	nd   (only on request, VERIF_C05_MODE=nd; K is not monitored) NetDrive's own `sync` profile = ls, but 30 % of the timers are
 //	     those of ANY node, so a deadline may fire before another node's filter timeout: not a bounded-delay order.
 //	vt   virtual time, bounded delay Δ = delta: every node's timers expire at zero(node) + player.Deadline / + player.
@@ -96,6 +97,7 @@ type c05Run struct {
 	last     []c05Status
 	sendAt   map[string]time.Duration
 	nSync    int
+	nTimers  int
 	script   func(c *c05Run, s *ndScen)
 }
 
@@ -181,11 +183,25 @@ func c05Plan(master uint64, i int, thorough bool) (ndConfig, *c05Run) {
 	if v := os.Getenv("VERIF_C05_BYZ"); v != "" {
 		c.byzActive = F > 0 && v == "1"
 	}
-	c.syncSteps = ndEnvInt("VERIF_C05_SYNCSTEPS", 6000+1500*(cfg.n-4))
+	c.syncSteps = c05DecisionCap(cfg.n)
 	cfg.rounds = 1 << 20 // the run ends when the target round is committed, not after a number of rounds
 	cfg.maxSteps = c.prefix + 1 + c.syncSteps
 	return cfg, c
 }
+
+// The budget of the synchronous phase is counted in TIMER FIRINGS, derived from the timeouts: one period costs a node at most
+// c05TimersPerPeriod firings (filter, deadline, nap + vote for each of the next steps up to the one whose deadline exceeds two
+// fast-recovery intervals — step next+8 —, and a handful of fast-recovery timeouts), and the property allows K + b periods
+// (checks/C05.py: K = 3, b = Byzantine-led periods; 3 more periods of slack).  Deliveries are not budgeted (finitely many per timer
+// firing); c05DecisionCap only bounds the running time of a schedule that is stuck.
+const c05TimersPerPeriod = 34
+const c05BudgetPeriods = 9
+
+func (c *c05Run) timerBudget() int {
+	return len(c.r.honestIDs()) * c05BudgetPeriods * c05TimersPerPeriod
+}
+
+func c05DecisionCap(n int) int { return ndEnvInt("VERIF_C05_SYNCSTEPS", 4*(6000+1500*(n-4))) }
 
 func (c *c05Run) snapshot(n *ndNode) c05Status {
 	// caller holds r.mu
@@ -349,8 +365,8 @@ func (c *c05Run) genSync() string {
 		if n := r.pickCatchup(hon); n >= 0 && c.rng.Intn(100) < 50 {
 			return fmt.Sprintf("cu %d", n)
 		}
-		if n := c.pickLaggard(hon); n >= 0 {
-			return fmt.Sprintf("t %d", n)
+		if n, kind := c.pickLaggard(hon); n >= 0 {
+			return fmt.Sprintf("%s %d", kind, n)
 		}
 		if n := r.pickCatchup(hon); n >= 0 {
 			return fmt.Sprintf("cu %d", n)
@@ -497,32 +513,47 @@ func (c *c05Run) genPrefix() string {
 	return "d " + m.key
 }
 
-// pickLaggard: (*ndRun).pickTimer without its 30 % "any node" branch.
-func (c *c05Run) pickLaggard(hon []int) int {
+// pickLaggard: the lock-step scheduler's clock.  The honest node that is furthest behind fires the timer it is waiting for: nodes
+// are ordered by (round, period, time since the node entered the period at which its next timer expires), where the next timer is
+// the earlier of the step timer (player.Deadline) and the fast-recovery timer (player.FastRecoveryDeadline) — so the first fast
+// timeout of a period (deadline 0) fires at once, step timers of equal steps fire before those of later steps, and once a step
+// deadline lies beyond the fast-recovery deadline (steps whose deadline exceeds ≈ 5–10 minutes) the fast-recovery timeout comes
+// first, as in real time.  Step timers of nodes at step ≥ ndMaxStep (deadlines of many hours) are never fired; their fast
+// timers are.  (The first version fired step timers only: a synchrony point with every node at step 17 left no timer to fire.)
+func (c *c05Run) pickLaggard(hon []int) (int, string) {
 	r := c.r
 	r.mu.Lock()
 	defer r.mu.Unlock()
-	best := []int{}
+	type cand struct {
+		id   int
+		kind string
+		rnd  basics.Round
+		per  period
+		at   time.Duration
+	}
+	var best []cand
 	for _, id := range hon {
 		n := r.nodes[id]
-		if n.step >= ndMaxStep {
-			continue
+		x := cand{id: id, kind: "f", rnd: n.round, per: n.period, at: n.fastDl}
+		if n.step < ndMaxStep && n.deadline.Duration > 0 && n.deadline.Duration <= n.fastDl {
+			x.kind, x.at = "t", n.deadline.Duration
 		}
 		if len(best) > 0 {
-			b := r.nodes[best[0]]
-			if n.round > b.round || (n.round == b.round && (n.period > b.period || (n.period == b.period && n.step > b.step))) {
+			b := best[0]
+			if x.rnd > b.rnd || (x.rnd == b.rnd && (x.per > b.per || (x.per == b.per && x.at > b.at))) {
 				continue
 			}
-			if n.round != b.round || n.period != b.period || n.step != b.step {
+			if x.rnd != b.rnd || x.per != b.per || x.at != b.at {
 				best = best[:0]
 			}
 		}
-		best = append(best, id)
+		best = append(best, x)
 	}
 	if len(best) == 0 {
-		return -1
+		return -1, ""
 	}
-	return best[c.rng.Intn(len(best))]
+	x := best[c.rng.Intn(len(best))]
+	return x.id, x.kind
 }
 
 // genByzSync: the Byzantine minority after the synchrony point: NetDrive's adversary (genByz) aimed at the target round.
@@ -592,6 +623,7 @@ func (c *c05Run) execute() {
 			}
 			if c.synced && (line[0] == 't' || line[0] == 'f') {
 				c.forgetDelivered()
+				c.nTimers++
 			}
 			r.exec(line)
 		}
@@ -606,11 +638,15 @@ func (c *c05Run) execute() {
 			if c.done() {
 				break
 			}
+			if c.nTimers > c.timerBudget() {
+				r.note("TIMER-BUDGET exhausted: %d timer firings in the synchronous phase", c.nTimers)
+				break
+			}
 		}
 	}
 	fmt.Fprintln(c.out.sched, "end")
 	r.mu.Lock()
-	r.logLocked("SYNCEND synced=%d decisions=%d done=%d vt=%d", b2i(c.synced), c.nSync, b2i(c.synced && c.done()), c.vnow)
+	r.logLocked("SYNCEND synced=%d decisions=%d timers=%d timerbudget=%d done=%d vt=%d", b2i(c.synced), c.nSync, c.nTimers, c.timerBudget(), b2i(c.synced && c.done()), c.vnow)
 	r.mu.Unlock()
 	for _, n := range r.nodes {
 		if n.honest {
@@ -914,7 +950,7 @@ func TestVerifC05(t *testing.T) {
 		}
 		for i, cfg := range cs {
 			cfg.rounds = 1 << 20
-			cfg.maxSteps = len(ds[i]) + 1 + ndEnvInt("VERIF_C05_SYNCSTEPS", 6000+1500*(cfg.n-4))
+			cfg.maxSteps = len(ds[i]) + 1 + c05DecisionCap(cfg.n)
 			cfgs = append(cfgs, cfg)
 			runs = append(runs, &c05Run{rng: vh.NewRng(cfg.seed + 99), sendAt: map[string]time.Duration{}, mode: "nd"})
 			decs = append(decs, ds[i])
@@ -925,7 +961,7 @@ func TestVerifC05(t *testing.T) {
 		if from == 0 && os.Getenv("VERIF_C05_NOSCEN") == "" {
 			for v := 0; v < 2; v++ {
 				cfg := ndConfig{id: 9000 + v, seed: vh.Seed()*17 + uint64(v), n: 4, w: []uint64{1, 1, 1, 1}, honest: []bool{true, true, true, true}, T: 3,
-					rounds: 1 << 20, maxSteps: 4000, profile: fmt.Sprintf("scenario-pipelined%d", v)}
+					rounds: 1 << 20, maxSteps: c05DecisionCap(4), profile: fmt.Sprintf("scenario-pipelined%d", v)}
 				c := &c05Run{rng: vh.NewRng(cfg.seed + 5), sendAt: map[string]time.Duration{}, mode: []string{"ls", "vt"}[v], script: c05ScenPipelined(v)}
 				cfgs = append(cfgs, cfg)
 				runs = append(runs, c)
@@ -938,7 +974,7 @@ func TestVerifC05(t *testing.T) {
 					continue
 				}
 				cfg := ndConfig{id: 9100 + idx, seed: vh.Seed()*31 + uint64(idx), n: k.n, w: make([]uint64, k.n), honest: k.honest,
-					rounds: 1 << 20, maxSteps: 3000, profile: fmt.Sprintf("scenario-split-n%d-sb%d-sv%d", k.n, k.sb, k.sv)}
+					rounds: 1 << 20, maxSteps: c05DecisionCap(k.n), profile: fmt.Sprintf("scenario-split-n%d-sb%d-sv%d", k.n, k.sb, k.sv)}
 				for i := range cfg.w {
 					cfg.w[i] = 1
 				}
